@@ -663,6 +663,48 @@ extend('C09',
        'HARDENING (audit) — the two generate_dates models are proved equal (generateDates_models_agree); the weekday branch is '
        'total under a three-week guard (weekday_candidates_total); the month-day guard is exact (monthday_guard_exact).')
 
+extend('C14',
+       'HARDENING (audit) — the round-trip guards are proved EXACT (inRange_exact: on every string TimexParsing takes apart '
+       'the clause holds iff the guard holds; dt_guard_necessary for all digits); Canonical is an independent grammar proved '
+       'equal to the image of format (canonical_iff_image); accepted strings outside the quantifier (year / month / season / '
+       'week + time; year 0000, month 00, weekday 0) are characterised by witness theorems and counted in the evidence, not '
+       'reported.')
+extend('C15',
+       'HARDENING (audit) — the ranges the constraints denote are characterised independently on calendar functions '
+       '(Props/C15Range: daterange_year/month/days/weeks, timerange_hours/minutes/parts_of_day) and checked on the real code '
+       'against datetime; duration_seconds_frac for every Decimal amount; collapse proved to return for every fuel above the '
+       'number of constraints (evaluate_collapse_never_hangs); time-of-day candidates have their own statements.')
+extend('C13',
+       'HARDENING (audit) — IP extractor level, all texts: ipv4_extract_complete / ipv6_extract_complete (an address standing '
+       'as its own token is reported with its exact span), ip_extract_reports_valid; a longer dotted run reports a valid prefix '
+       '(ipv4_dotted_run_reports_prefix + longer_dotted_run_invalid: sound, outside completeness); guid_reported_span_braced; '
+       'a valid reported address is never a property failure — the own-token diagnosis is replayed on the model (difference = '
+       'correspondence break); the model\'s findAll is proved to be the libraries\' finditer on every translated pattern '
+       '(translated_findAll_is_finditer; translators refuse nullable patterns).')
+extend('C16',
+       'HARDENING (audit) — find proved defined for every dictionary / query / tokenizer; every result in bounds with text = '
+       'the plain query slice (matcherRun_results_plain); results characterised exactly at character level '
+       '(matcherRun_mem_iff); the pipeline oracle checks bounds and slice on every real MatchResult.')
+extend('C19',
+       'HARDENING (audit) — the modelled families (233 cases) are compared in EVERY field the Specs state (Start/End, value, '
+       'type, score); this exposed the missing IP Resolution.type and the constant boolean score 0.0, both repaired in /repo; '
+       'the other ~14,900 cases demand exactly what the repository\'s runner demands.')
+extend('C20',
+       'HARDENING (audit) — the quantifier covers every member of both regex languages incl. the 25 skin-tone sequences '
+       '(alts_complete); the neutral clause is universal as "no regex match => nothing" (no_match_nothing), the pool is a labelled '
+       'sample; reported score in [0,1] proved for every query from the score formula (with the repaired parser the score is '
+       'the extractor\'s).')
+extend('C18',
+       'HARDENING (audit) — string entries round-trip provided no raw LF / CR / NUL (create_entry_roundtrip_tied, CR witness).')
+extend('C06',
+       'HARDENING (audit) — month_words_* / day_words_* for all 9 cultures: every month / day word of the committed hand-written '
+       'contracts/C06words.json (701 words) is in the tree\'s map with the contract\'s number; abs_date_month_word / '
+       'abs_date_zh_words state C06 on contract words; two_digit_year_gap concludes match_to_date\'s result.')
+for _pid in list(CHECKS):
+    CHECKS[_pid]['level_note'] += (' Known findings are matched by property + signature + (where committed) the exact failing '
+                                   'inputs under findings/sets/; every public theorem of the Props modules is required by full '
+                                   'name (harness/required/).')
+
 ALL_IDS = ['C%02d' % i for i in range(1, 21)]
 PENDING = 'check not built yet in this revision (work in progress; see DESIGN.md §8 build order)'
 
